@@ -241,7 +241,7 @@ Section Trace.
     snd (trace_values var_info (table_calc value_of) canon tt ps) = Ok t ->
     Forall2 (fun pa kv => let '(_, _, v, pk) := pa in
                exists ty vpl arr, var_info v = Some (ty, vpl) /\ value_of v pk = Ok arr
-                                  /\ kv = (trace_key v (canon pk), map (render ty) arr)) ps t.
+                                  /\ kv = (trace_key v (canon pk), map (serialize ty) arr)) ps t.
   Proof.
     induction ps as [|[[[pl id] v] pk] ps IH]; intros t; cbn [trace_values].
     - intros [= <-]. constructor.
@@ -252,8 +252,15 @@ Section Trace.
       exists ty, vpl, arr. auto.
   Qed.
 
-  (** For every requested slot, the value the trace reports for that calculation, at the
-      position of the instance, is the leaf /calculate puts into the slot. *)
+  Lemma serialize_render : forall ty x, (forall e s, x <> RF e s) -> serialize ty x = render ty x.
+  Proof.
+    intros ty x H. destruct ty, x; try reflexivity. exfalso. now apply (H exact shortest).
+  Qed.
+
+  (** For every requested slot, the value the trace reports for that calculation holds, at
+      the position of the instance, the same engine element that /calculate renders into the
+      slot (the two JSON values are identical unless the element is a float32 whose shortest
+      text differs from its value: [serialize_render]). *)
   Theorem trace_agrees : forall d out t, NoDup (map fst d) ->
     api_calculate var_info ids_of is_role period_ok table_build (table_calc value_of) d = Done out ->
     api_trace var_info ids_of is_role period_ok table_build (table_calc value_of) plurals canon d = Done t ->
@@ -261,8 +268,9 @@ Section Trace.
     /\ described t = map (fun pl => (pl, match ids_of pl with Some ids => ids | None => [] end)) plurals
     /\ Forall2 (fun pa kv => let '(pl, id, v, pk) := pa in
                   fst kv = trace_key v (canon pk)
-                  /\ exists ids i l, ids_of pl = Some ids /\ index_of id ids = Some i
-                                     /\ In (pa, l) out /\ nth_error (snd kv) i = Some l)
+                  /\ exists ids i ty vpl x, ids_of pl = Some ids /\ index_of id ids = Some i
+                                     /\ var_info v = Some (ty, vpl)
+                                     /\ In (pa, render ty x) out /\ nth_error (snd kv) i = Some (serialize ty x))
                (null_paths d) (traced t).
   Proof.
     intros d out t Hnd Hc Ht.
@@ -288,7 +296,7 @@ Section Trace.
       destruct (Hs (pl, id, v, pk) (or_introl eq_refl)) as [l [I1 I2]].
       destruct I2 as (ty' & vpl' & arr' & ids & i & x & V' & A' & Hi & Hx & Hn & ->).
       rewrite V in V'. injection V' as <- <-. rewrite A in A'. injection A' as <-.
-      exists ids, i, (render ty x). repeat split; auto. now apply map_nth_error.
+      exists ids, i, ty, vpl, x. repeat split; auto. now apply map_nth_error.
     - apply IH. intros pa' Hp. apply Hs. now right.
   Qed.
 End Trace.
